@@ -38,8 +38,8 @@ def strip_comments(src):
     return re.sub(r"--.*", "", src)
 
 
-def l1_audit(pid):
-    """build the Lean project, re-check the property's theorems and their axioms"""
+def l1_audit(pid, tier="quick"):
+    """build the Lean project, re-check the property's theorems and their axioms (thorough: also leanchecker)"""
     res = dict(build_ok=False, theorems=[], discharged=0, obligations=0, failures=[], forbidden=[])
     rc, out = sh("lake build NurbsVerif driver 2>&1 | tail -40", cwd=LEAN)
     res["build_ok"] = (rc == 0 and "error" not in out.lower().replace("errors", ""))
@@ -91,6 +91,12 @@ def l1_audit(pid):
         res["theorems"].append(entry)
     if res["forbidden"]:
         res["failures"].append("forbidden constructs: " + "; ".join(res["forbidden"][:5]))
+    if tier == "thorough":
+        # independent re-check of the compiled modules that hold this property's theorems
+        rc, out = sh("lake env leanchecker %s 2>&1 | tail -20" % " ".join(mods), cwd=LEAN, timeout=3600)
+        res["leanchecker"] = "ok" if rc == 0 and "error" not in out.lower() else out[-500:]
+        if res["leanchecker"] != "ok":
+            res["failures"].append("leanchecker rejected a module: " + out[-500:])
     return res
 
 
@@ -119,7 +125,7 @@ def main():
     seed = int(os.environ.get("VERIF_SEED", "20260929"))
     t0 = time.time()
     try:
-        l1 = l1_audit(pid)
+        l1 = l1_audit(pid, tier)
         if not l1["build_ok"]:
             print("INFRA: lean build failed\n" + "\n".join(l1["failures"]))
             sys.exit(2)
@@ -184,7 +190,8 @@ def main():
         obligations=l1["obligations"],
         discharged=l1["discharged"],
         theorems=l1["theorems"],
-        checker_cmd="cd lean && lake build NurbsVerif driver && lake env lean .audit/Audit_%s.lean  (#print axioms of every property theorem; accepted: propext, Classical.choice, Quot.sound)" % pid,
+        checker_cmd="cd lean && lake build NurbsVerif driver && lake env lean .audit/Audit_%s.lean  (#print axioms of every property theorem; accepted: propext, Classical.choice, Quot.sound)%s" % (
+            pid, "; lake env leanchecker <modules of the theorems>: %s" % l1.get("leanchecker") if l1.get("leanchecker") else ""),
         trusted_base=[
             "Lean 4.33.0 kernel", "axioms propext / Classical.choice / Quot.sound (audited on every run)",
             "Mathlib v4.33.0 modules imported by the proof files",
